@@ -173,11 +173,14 @@ func runC11(r *h.Run) {
 	var viol *sched.Violation
 	completed, scenarios := 0, 0
 	var bounded int64
-	var writes []string
+	var writes, unexplorable []string
 	for i, wr := range results {
 		if errs[i] != nil {
 			r.Infra(errs[i])
 			return
+		}
+		if len(wr.Unexplorable) > 0 {
+			unexplorable = append(unexplorable, wr.Unexplorable...)
 		}
 		if wr.Error != "" {
 			r.Infra(fmt.Errorf("worker %d: %s", i, wr.Error))
@@ -208,6 +211,11 @@ func runC11(r *h.Run) {
 	r.Extra["scenarios"] = scenarios
 	r.Extra["scenarios_explored_completely"] = completed
 	r.Extra["schedules_uncached_preemption_bounded"] = bounded
+	if len(unexplorable) > 0 {
+		// not a violation and not explored: said so in the evidence
+		r.Extra["scenarios_blocking_outside_the_scheduler"] = unexplorable
+		r.MarkIncomplete("a scenario blocks outside the scheduler's control (left to the free-running pass)")
+	}
 	if len(writes) > 0 {
 		r.Extra["scenarios_in_which_a_read_wrote_shared_state"] = writes
 	}
